@@ -111,6 +111,7 @@ mut('C07-join-index-built-once', (P + 'join.py', "    db_keys_usage = None\n    
     (P + 'join.py', "        nonlocal db, db_keys_usage\n        db_keys_usage = KVFile()\n        db = KVFile()\n", "        nonlocal db, db_keys_usage\n"))
 mut('C07-computed-field-args-mutated', (P + 'add_computed_field.py', "        fields = [dict(f) for f in fields]\n", "        fields = list(fields)\n"))
 mut('C12-format-literals-dropped', (P + 'sort_rows.py', "                        ret += formatters[i].format(**{key: value}) + literals[i + 1]\n", "                        ret += formatters[i].format(**{key: value})\n"))
+mut('C07-set_type-fields-accumulate', (P + 'set_type.py', "        # Start over, so that the same flow can run again\n        self.field_names = dict()\n", "        # Start over, so that the same flow can run again\n"))
 
 
 def main():
